@@ -24,6 +24,7 @@ import (
 	"sort"
 	"strings"
 	"sync"
+	"syscall"
 	"time"
 
 	"github.com/dapr/kit/concurrency/dir"
@@ -140,6 +141,7 @@ type runner struct {
 	renamed            bool
 	lastNano           int64
 	trace              []string // what happened, for the failure message
+	fault              *faultState // error-return fault of this run (fault_test.go); nil: none
 }
 
 type result struct {
@@ -160,7 +162,9 @@ func (r *runner) observe(where string) error {
 		want = r.inflight
 	}
 	li, err := os.Lstat(r.target)
-	if errors.Is(err, fs.ErrNotExist) {
+	if errors.Is(err, fs.ErrNotExist) || errors.Is(err, syscall.ENOTDIR) {
+		// (ENOTDIR: a fault run put a regular file in the place of a missing component of the base
+		// directory - for a reader the target is absent as well)
 		if want == nil {
 			return nil
 		}
@@ -249,6 +253,9 @@ func (r *runner) write(d *dir.Dir, tag string, ws wset, crashK int) (crashed boo
 	}
 	r.inflight = &committedSet{tag: tag, set: ws}
 	r.renamed = false
+	if r.fault != nil {
+		r.fault.beginWrite(r)
+	}
 	h := func(point string) {
 		k := len(points)
 		points = append(points, point)
@@ -260,6 +267,11 @@ func (r *runner) write(d *dir.Dir, tag string, ws wset, crashK int) (crashed boo
 		}
 		if k == crashK {
 			panic(crashSentinel{})
+		}
+		if f := r.fault; f != nil && f.armK == k && !f.armed {
+			// an error-return fault: the handler changes the filesystem so that the step(s) that follow
+			// fail for real, and lets Write go on
+			f.arm(r, point)
 		}
 	}
 	func() {
@@ -338,6 +350,20 @@ func (r *runner) newDir() *dir.Dir {
 	return dir.New(dir.Options{Log: nopLog{}, Target: r.target})
 }
 
+// scrub makes the message of a violation a pure function of the case (rapid re-runs and compares
+// them): no scratch path, no time-derived version directory names.
+func (r *runner) scrub(viol error) error {
+	if viol == nil {
+		return nil
+	}
+	var v *violation
+	if !errors.As(viol, &v) {
+		v = &violation{kind: "other", detail: viol.Error()}
+	}
+	msg := strings.ReplaceAll(v.detail, r.root, "<scratch>")
+	return &violation{kind: v.kind, detail: versionName.ReplaceAllString(msg, "<version>-tgt")}
+}
+
 // runCase executes history h with the first process dying at c (c.W<0: it
 // never dies and the recovery part is not run). viol is a violation of C18;
 // herr is a problem of the harness itself (scratch directory, crash point not
@@ -348,18 +374,7 @@ func runCase(h history, c crashAt) (res result, viol error, herr error) {
 		return res, nil, err
 	}
 	defer os.RemoveAll(r.root)
-	defer func() {
-		// messages must be a pure function of the case (rapid re-runs and compares them):
-		// no scratch path, no time-derived version directory names
-		if viol != nil {
-			var v *violation
-			if !errors.As(viol, &v) {
-				v = &violation{kind: "other", detail: viol.Error()}
-			}
-			msg := strings.ReplaceAll(v.detail, r.root, "<scratch>")
-			viol = &violation{kind: v.kind, detail: versionName.ReplaceAllString(msg, "<version>-tgt")}
-		}
-	}()
+	defer func() { viol = r.scrub(viol) }()
 
 	// first process
 	d := r.newDir()
